@@ -8,24 +8,37 @@
      symbolic counter), the caller's circuit is not mutated (mutators only on the copy; write log).
 [F]  CircuitUnitaryCount iterates exactly the 8 unitary gate class names, each once (`labels.*` obligations, all 2^8
      node_dict membership patterns) and those 8 names are exactly the unitary gate classes of graphiq.circuit.ops (lemma).
+[P]  contracts/depth.py (REAL bodies on symbolic graph fragments): CircuitDAG._max_depth implements DEP(Input) = -1, DEP(n) = 1 + max
+     over the incoming edges (u, n) of DEP(u) on the CURRENT graph, reads only dag / node_dict and writes nothing (purity; extra state =
+     undecided); H4 histories query - edit - query with the real remove_op / insert_at in between (a memo that survives an edit is
+     refuted); calculate_reg_depth for a SYMBOLIC number of registers (entry i = depth of `{t}{i}_out`, nothing else written);
+     calculate_all_reg_depth / register_depth; reg_gate_history = the register's wire in order (unrolled + induction step);
+     lemma: the recursion is level - 1 of refsem/metrics.py and register depth = level of the last operation on the wire.
+[P]  contracts/metrics_emit.py: CircuitMaxEmitDepth / CircuitMaxEmitResetDepth / CircuitMaxEmitEffDepth .evaluate for 1-3 emitters = penalty of
+     their definitions on remove_identity(unwrap_nodes(copy)); counter / log / frame as for the counting metrics; no emitter -> ValueError.
+[P]  contracts/dag_rewrites.py: the rewrites the metrics apply to their copy - remove_identity leaves NO Identity node (symbolic number of
+     identities: loop rule + induction step; the list is iterated live as CPython does), unwrap_nodes replaces wrappers by their gates in
+     application order.
 """
 from __future__ import annotations
 
 from pyvc.driver import run_tasks, merge
-from contracts import metrics as M
+from contracts import metrics as M, depth as DP, dag_rewrites as RW, metrics_emit as ME
 
 
 def deductive(tier="quick", seed=0):
     tasks = [M.reads_defined_task(n) for n in M.metric_class_names()] + M.count_tasks()
+    tasks += DP.tasks() + ME.tasks() + RW.remove_identity_tasks() + RW.unwrap_nodes_tasks() + [RW._uw_absent_task()]
     d = run_tasks(tasks)
     d.obligations.extend(M.unitary_label_lemma())
-    can = run_tasks(M.count_canary_tasks())
+    d.obligations.extend(DP.depth_lemmas() + RW.wire_lemmas() + [o for o in RW.native_cross_check() if "group_one_qubit" not in o.name])
+    can = run_tasks(M.count_canary_tasks() + DP.canary_tasks() + ME.canary_tasks() + [c for c in RW.canary_tasks() if "group_one_qubit" not in c.label])
     d.errors.extend(can.errors)
-    d.canaries = M.canary_summary(can)
+    d.canaries = M.canary_summary(can) + DP.lemma_canaries()
     for c in d.canaries:
         if c["refuted"] and not c["replayed"]:
             d.notes.append(f"canary {c['name']} refuted, counter-model not replayed")
-    d.inlined = sorted(M.INLINE)
+    d.inlined = sorted(M.INLINE | RW.INLINE | {DP.Q_MD, DP.Q_CRD, DP.Q_CARD})
     d.trusted_base += [
         "[A-API] recorder contracts: CircuitDAG.depth (= nx.dag_longest_path_length-1), CircuitBase.n_emitters, "
         "CircuitDAG.get_node_by_labels (= |intersection of the label sets|), CircuitBase.copy (deepcopy: equal circuit, fresh "
@@ -33,9 +46,17 @@ def deductive(tier="quick", seed=0):
         "and the bounded stand-in of C18",
         "[A-WF4] a label that is not a key of node_dict labels no node (count = 0)",
         "[A] explicit penalty functions are pure (uninterpreted pen: Int -> Int); `x % m` for m >= 1 is Euclidean mod",
-        "[B-only] CircuitMaxEmitDepth / CircuitMaxEmitResetDepth / CircuitMaxEmitEffDepth .evaluate (reg_gate_history, _max_depth "
-        "walks), register depth (calculate_reg_depth), Metrics.evaluate weighting, GraphMetric.evaluate (networkx): only their "
-        "constructors are under contract here; values are decided by bounded/C18.py",
+        "[P, concrete number of emitters] CircuitMaxEmitDepth / CircuitMaxEmitResetDepth / CircuitMaxEmitEffDepth .evaluate "
+        "(contracts/metrics_emit.py): 1-3 emitters; wires of symbolic length (max emitter depth) / every reset pattern of <= 3 "
+        "operations per wire with symbolic node ids and depths (reset and effective depth); more emitters / longer wires: bounded/C18.py",
+        "[B-only] Metrics.evaluate weighting, GraphMetric.evaluate (networkx): only their constructors are under contract here",
+        "[WF] depth / rewrite tasks assume the representation invariant of C12 on the fragment (one incoming / outgoing edge per wire "
+        "of an operation node, acyclic, node_dict[K] lists exactly the nodes labelled K); the depth recursion has a unique solution "
+        "on an acyclic graph (induction over a topological rank)",
+        "[A-init] attributes of CircuitDAG the harness does not model are initialised by executing the matching `self.X = ...` "
+        "statements of the REAL CircuitDAG.__init__ on the harness object (depth histories, _max_depth tasks)",
+        "[A] `for i in range(n)` with symbolic n in calculate_reg_depth: rule L-range-pointwise (contracts/depth.py: the body writes "
+        "entry i only, nothing else, and does not read the list); `for x in <list>` = CPython's index-based list iterator",
         "[B-only] that circuit.depth / get_node_by_labels compute the longest path / the label intersection of the real DAG",
     ]
     d.not_applicable_clauses += ["floating-point penalties (penalty functions are abstract integer functions here)"]
